@@ -168,6 +168,28 @@ func (e *Engine) discharge(o *Oblig, dir string, timeoutSec int, thorough bool) 
 			return
 		}
 	}
+	// stage 1b: the same query with hypotheses dropped (always sound for a proof): first without the quantified
+	// hypotheses that do not share a heap/array symbol with the goal, then without any top-level quantified hypothesis
+	if r.verdict != "unsat" && r.verdict != "sat" && o.lemmaFile == "" {
+		for vi, variant := range prunedVariants(text) {
+			pf := strings.TrimSuffix(fname, ".smt2") + fmt.Sprintf(".pruned%d.smt2", vi+1)
+			os.WriteFile(pf, []byte(variant), 0o644)
+			pr := runSolver(solvers[0], pf, 3, "")
+			o.Output += fmt.Sprintf("\n[%s pruned%d %.2fs] %s", solvers[0].name, vi+1, pr.secs, strings.TrimSpace(firstLines(pr.output, 1)))
+			if pr.verdict == "unsat" {
+				o.Verdict, o.Solver, o.Secs, o.Agree = "unsat", solvers[0].name+fmt.Sprintf("(pruned%d)", vi+1), pr.secs, 1
+				o.SMTFile = pf
+				if !thorough {
+					return
+				}
+				break
+			}
+			os.Remove(pf)
+		}
+		if o.Verdict == "unsat" && thorough {
+			return
+		}
+	}
 	if r.verdict == "sat" {
 		o.Verdict, o.Solver, o.Secs = "sat", solvers[0].name, r.secs
 		o.Model = e.getModel(solvers[0], fname, timeoutSec)
@@ -230,6 +252,51 @@ func (e *Engine) discharge(o *Oblig, dir string, timeoutSec int, thorough bool) 
 			}
 		}
 	}
+}
+
+// prunedVariants returns weaker-hypothesis versions of a query. Lines are one assert each (as emitted by smtText).
+func prunedVariants(text string) []string {
+	lines := strings.Split(text, "\n")
+	goalIdx := -1
+	for i := len(lines) - 1; i >= 0; i-- {
+		if strings.HasPrefix(lines[i], "(assert (not ") {
+			goalIdx = i
+			break
+		}
+	}
+	if goalIdx < 0 {
+		return nil
+	}
+	goalSyms := map[string]bool{}
+	for _, m := range symRe.FindAllString(lines[goalIdx], -1) {
+		if strings.Contains(m, "~") || strings.HasPrefix(m, "G.") {
+			goalSyms[m] = true
+		}
+	}
+	var rel, none []string
+	nq := 0
+	for i, l := range lines {
+		if i != goalIdx && strings.HasPrefix(l, "(assert (forall") && !strings.Contains(l, ":pattern ((ix ") && !strings.Contains(l, "gs.len") {
+			nq++
+			keep := false
+			for _, m := range symRe.FindAllString(l, -1) {
+				if goalSyms[m] {
+					keep = true
+					break
+				}
+			}
+			if keep {
+				rel = append(rel, l)
+			}
+			continue
+		}
+		rel = append(rel, l)
+		none = append(none, l)
+	}
+	if nq == 0 {
+		return nil
+	}
+	return []string{strings.Join(rel, "\n"), strings.Join(none, "\n")}
 }
 
 func firstLines(s string, n int) string {
